@@ -395,8 +395,10 @@ def check_one(chk, c, o, r_fit, r_fwd, r_inv):
 def m_periodic_upper(rec, sig):
     s = rec["signature"]
     d = s.get("frac_below_a_period")
-    # x lies less than one rounding unit below lower + k*period (k any integer): `%` rounds period - tiny up to the period
-    return s.get("clause") == "periodic_range" and s.get("equals_upper") and d is not None and 0 <= d < s.get("rounding_unit", 0)
+    # x lies within one rounding unit of lower + k*period (k any integer; just below it, or just above it with `x - lower` rounding
+    # down across the multiple): `%` returns period - tiny, and lower + (period - tiny) rounds up to `upper`
+    ru = s.get("rounding_unit", 0)
+    return s.get("clause") == "periodic_range" and s.get("equals_upper") and d is not None and (0 <= d < ru or 0 <= 1 - d < ru)
 
 
 MATCHERS = {"periodic_forward_returns_upper_just_below_lower": m_periodic_upper}
